@@ -50,6 +50,53 @@ func monitorUnreachableRule(r *engine.Report, p *engine.Program, rule string) {
 		return
 	}
 	isCancel := func(in ssa.Instruction) bool { return in == loopCancel }
+	// the monitor gives up only by cancelling (or when its subscription ends): from a received
+	// notice no return is reachable without the cancel
+	{
+		var recvOK []engine.Edge
+		var recvs []ssa.Instruction
+		for _, b := range mu.Blocks {
+			for _, in := range b.Instrs {
+				switch x := in.(type) {
+				case *ssa.Next:
+					recvs = append(recvs, in)
+				case *ssa.UnOp:
+					if x.Op == token.ARROW {
+						recvs = append(recvs, in)
+					}
+				}
+			}
+		}
+		for _, b := range mu.Blocks {
+			for _, in := range b.Instrs {
+				switch x := in.(type) {
+				case *ssa.Next:
+					h, _ := engine.CondEdges(mu, func(c ssa.Value) (bool, bool) {
+						e, isE := c.(*ssa.Extract)
+						return isE && e.Tuple == ssa.Value(x) && e.Index == 0, true
+					})
+					recvOK = append(recvOK, h...)
+				case *ssa.UnOp:
+					if x.Op == token.ARROW && x.CommaOk {
+						h, _ := engine.CondEdges(mu, func(c ssa.Value) (bool, bool) {
+							e, isE := c.(*ssa.Extract)
+							return isE && e.Tuple == ssa.Value(x) && e.Index == 1, true
+						})
+						recvOK = append(recvOK, h...)
+					}
+				}
+			}
+		}
+		okK := len(recvOK) > 0
+		for _, e := range recvOK {
+			if reachFromEdge(mu, e, nil, func(in ssa.Instruction) bool { return isCancel(in) || isOneOf(in, recvs) }, func(in ssa.Instruction) bool { _, isR := in.(*ssa.Return); return isR }) != nil {
+				okK = false
+			}
+		}
+		r.Check(rule, "monitorUnreachable: keeps monitoring until it cancels the connection", mu.Pos(), okK,
+			"from a received notice, before the next receive, a return is reachable only through cancel(): notices about other problems or other peers never end the monitor",
+			"the monitor can return after a notice without cancelling (e.g. it stops at the first notice naming its peer, whatever the problem): a later 'service unknown' notice is ignored and the dial waits out the handshake timeout")
+	}
 	wantProb, _ := constStringOf(p.Const("netceptor", "ProblemServiceUnknown"))
 	fld := func(n string) *types.Var { return p.Field("netceptor", "UnreachableMessage", n) }
 	conds := []struct {
